@@ -245,7 +245,17 @@ class C13(Prop):
                 if loc3.date() == loc.date():
                     traveller.move_to(float(t3))
                     try:
-                        again = {s_.schedule_id: s_ for s_ in self.parser.get_schedules(_rp.schedules([_rp.schedule_record(k2, mask, e0, e0 + 1800) for k2, mask, e0, _ in recs]))}
+                        raw_ = _rp.schedules([_rp.schedule_record(k2, mask, e0, e0 + 1800) for k2, mask, e0, _ in recs])
+                        if now_i % 2:
+                            # as the API hands it out: through the response class (byte-identical reply, later clock)
+                            from aioswitcher.api.messages import SwitcherGetSchedulesResponse as _Resp
+
+                            traveller.move_to(float(now))
+                            _Resp(raw_)
+                            traveller.move_to(float(t3))
+                            again = {s_.schedule_id: s_ for s_ in _Resp(raw_).schedules}
+                        else:
+                            again = {s_.schedule_id: s_ for s_ in self.parser.get_schedules(raw_)}
                     except Exception as exc:
                         acc.violation("raised", f"parsing the same listing again later the same day raised {type(exc).__name__}: {exc}", {"zone": zone, "now": now})
                         again = {}
@@ -262,6 +272,33 @@ class C13(Prop):
                             acc.violation(f"display-wrong:{want[0]}->{got[0]}:listed-again-later", f"{zone}: the same record (days {sorted(days)}, start {start}) listed again at "
                                           f"{loc3:%a %H:%M} (first at {loc:%H:%M}) displays {s_.display!r}, want {want[0]}", {"start": start, "days": sorted(days), "zone": zone})
                     traveller.move_to(float(now))
+            # the host zone changes while the process lives: the very same listing bytes, parsed under another zone, read in that zone
+            if recs:
+                z2 = ZONES[(ZONES.index(zone) + 1 + now_i % (len(ZONES) - 1)) % len(ZONES)] if zone in ZONES else "UTC"
+                clock.set_zone(z2)
+                loc4 = clock.local(z2, now)
+                try:
+                    raw_ = _rp.schedules([_rp.schedule_record(k2, mask, e0, e0 + 1800) for k2, mask, e0, _ in recs])
+                    other = {s_.schedule_id: s_ for s_ in self.parser.get_schedules(raw_)}
+                except Exception as exc:
+                    acc.violation("raised", f"parsing the same listing under {z2} raised {type(exc).__name__}: {exc}", {"zone": z2, "now": now})
+                    other = {}
+                for k2, mask, e0, sm in recs:
+                    s_ = other.get(str(k2))
+                    if s_ is None:
+                        continue
+                    acc.ev()
+                    st_loc = clock.local(z2, e0)
+                    sm2 = st_loc.hour * 60 + st_loc.minute
+                    start2 = f"{sm2 // 60:02d}:{sm2 % 60:02d}"
+                    days = {d for d in range(7) if mask & (2 << d)}
+                    want = clock.next_run(loc4.weekday(), loc4.hour * 60 + loc4.minute, sm2, days)
+                    got = clock.classify_text(s_.display, start2)
+                    if not (got[0] == want[0] and (want[0] != "next" or got[1] == want[1])):
+                        acc.violation(f"display-wrong:{want[0]}->{got[0]}:listed-after-zone-change", f"the same record (days {sorted(days)}, start epoch {e0}) listed again after the "
+                                      f"host zone changed from {zone} to {z2} (local {loc4:%a %H:%M}, start there {start2}) displays {s_.display!r}, want {want[0]}",
+                                      {"days": sorted(days), "zone": z2})
+                clock.set_zone(zone)
         differs = wd != utc.weekday()
         near_midnight = now_min < 120 or now_min >= 1320
         if differs or near_midnight:
